@@ -56,7 +56,7 @@ def twin_replay(seed):
             for _ in range(rng.randint(1, 3)):
                 k = rng.choice([1, 1, 2, 3, 5, 8, 13])
                 out.append("#! replay")
-                out.append("dlv %s %s -%d" % (t[1], t[2], k))
+                out.append("rpl %s %s %d" % (t[1], t[2], k - 1))
     return [("replay-base", base), ("replay-twin", out)]
 
 
@@ -423,13 +423,13 @@ def main():
     if not ok:
         proof_ok = False
         proof_msgs.append("regeneration of the generated Lean definitions failed: " + msg)
-    build_ok, out = (False, "") if not ok else lake_build(["Utcp", "Driver", "driver", "Utcp.Props." + prop])
+    build_ok, out = (False, "") if not ok else lake_build(["Utcp", "driver", "Utcp.Props." + prop])
     if ok and not build_ok:
         proof_ok = False
         errs = [l for l in out.splitlines() if "error" in l][:8]
         proof_msgs.append("lake build failed: " + " | ".join(errs))
         # the model driver is still needed for correspondence: build what can be built
-        lake_build(["Utcp", "Driver", "driver"])
+        lake_build(["Utcp", "driver"])
     obligations = discharged = 0
     axioms = {}
     if build_ok:
